@@ -96,6 +96,11 @@ JudgeC02(e) ==
 JudgeC11(e) ==
     IF e.sweeps > e.cap + 1 THEN P("C11_BoundedSweeps")
     ELSE IF ~e.prefix_intact THEN P("C11_PrefixIntact")
+    \* the iteration diverged (NaN error / non-finite iterate): it did not meet the tolerance, yet no error
+    ELSE IF e.exit = "converged" /\ (e.errNaN \/ ~e.finite) THEN P("C11_UnsolvableRaises")
+    \* an equation is undefined (ZeroDivisionError / ValueError) at the values reported as solved:
+    \* the arithmetic error persisted, yet no error was raised
+    ELSE IF e.exit = "converged" /\ e.undef THEN P("C11_PersistentErrorRaises")
     ELSE IF e.exit \in Failures /\ e.exit = "OtherError" THEN P("C11_FailureRaises")
     ELSE IF e.exit \in Failures /\ e.len_min # e.len_max THEN P("C11_EqualLengthsAfterFailure")
     ELSE Ok
